@@ -5,13 +5,13 @@ HERE = os.path.dirname(os.path.abspath(__file__))
 
 CLAIMED = {
  "C20": dict(
-  level_text="Seeded deterministic simulation of the real biotite.application wrappers (Application, LocalApp, MSAApp, ClustalOmegaApp, MuscleApp, Muscle5App, MafftApp plus two logic-free stub subclasses) against a virtual clock, in-process scripted child processes and fake MSA tools acting on the real temp files; a reference life-cycle model decides legality/outcome of every call, and cwd / temp files / child liveness / clean-up count are checked after every operation under launch, exit-code, hang, timeout, garbage-output, missing-tree and clock-jump faults. Sampling, not proof: a clean batch is evidence over the explored seeds.",
+  level_text="Seeded deterministic simulation of the real biotite.application wrappers (Application, LocalApp, MSAApp, ClustalOmegaApp, MuscleApp, Muscle5App, MafftApp plus two logic-free stub subclasses) against a virtual clock, in-process scripted child processes and fake MSA tools acting on the real temp files; a reference life-cycle model decides legality/outcome of every call, and cwd / temp files / child liveness / clean-up count are checked after every operation under launch, exit-code, hang, timeout, garbage-output, missing-tree and clock-jump faults, interrupts of the caller, SIGTERM-ignoring programs, pipe capacity, undecodable and early program output, a disk that is full while the input files are written, and arguments Popen itself refuses; a third phase repeats sampled histories against real child processes. Sampling, not proof: a clean batch is evidence over the explored seeds.",
   level_note="Trusted: SimPopen models Popen's poll/communicate/kill semantics; fake tools act atomically at their exit instant; the life-cycle table of DESIGN.md Appendix A is the documented life cycle. External binaries themselves are stubs.",
   technique="deterministic simulation with fault injection (virtual clock, simulated child processes, seeded schedule and faults, reference model, ddmin replay)",
   design_ref="4.1, Appendix A"),
  "C06": dict(
   level_text="Seeded operation-and-restart histories on one CIFFile / BinaryCIFFile treated as a three-level key/value store: mapping operations, partial touches (lazy parsing), rejected operations and restarts from the durable serialised form through simulated media (memory, stream, path, temp-file wrapper, TextIOWrapper), checked step by step against a dict model; cell values come from an awkward-string pool and random compositions of awkward atoms at every table position. Sampling, not proof.",
-  level_note="Trusted: the dict model; value domain = printable strings without an embedded line break followed by ';' (inexpressible in CIF 1.1); identifier-like names; present cells are never '.' or '?'. Storage faults are not injected (the code has no reaction to them, see DESIGN 7).",
+  level_note="Trusted: the dict model; value domain = printable strings without an embedded line break followed by ';' (inexpressible in CIF 1.1); identifier-like names; present cells are never '.' or '?'. Storage faults other than short reads are not injected (the code has no reaction to them, see DESIGN 7).",
   technique="deterministic simulation (seeded histories with restart-from-durable-state, rejected-operation faults, reference model, ddmin replay)",
   design_ref="4.4, Appendix B"),
  "C12": dict(
@@ -70,7 +70,7 @@ def main():
         "setup_cmd": "/venv/bin/python /verif/setup_check.py",
         "hooks": {
             "guard": "BIOTITE_VERIF",
-            "enable": "no source hook exists: every seam the simulator needs is a module-level name (application.time, localapp.Popen/subprocess/chdir/getcwd, tempfile.tempdir) rebound by /verif/sim for the duration of a run; BIOTITE_VERIF is reserved and unused",
+            "enable": "no source hook exists: every seam the simulator needs is a module-level name (application.time, localapp.Popen/subprocess/chdir/getcwd, msaapp/clustalo/muscle NamedTemporaryFile, tempfile.tempdir) rebound by /verif/sim for the duration of a run; BIOTITE_VERIF is reserved and unused",
             "baseline_off_cmd": "cd /repo && /venv/bin/python -m pytest -ra -q -p no:cacheprovider --timeout=900 --continue-on-collection-errors",
             "source_commits": [],
             "add_only": True,
